@@ -67,4 +67,56 @@ Section ConvProofs.
     destruct (render (max_width cfg) d); [|discriminate].
     intros H; inversion H; subst. eauto.
   Qed.
+
+  (* ---------- the four entry points honour the disabled mark (C07) ---------- *)
+  Lemma convert_expr_disabled cfg self c n :
+    a_disabled (attrs_of (bt self)) = true ->
+    convert_expr swidth cfg self c n = Ok (text swidth (into_text (bt self)), n + 1).
+  Proof. intros H. unfold convert_expr, check_disabled, bind, bump. rewrite H. reflexivity. Qed.
+
+  Lemma convert_pattern_disabled cfg self c n :
+    a_disabled (attrs_of (bt self)) = true ->
+    convert_pattern swidth cfg self c n = Ok (text swidth (into_text (bt self)), n + 1).
+  Proof. intros H. unfold convert_pattern, check_disabled, bind, bump. rewrite H. reflexivity. Qed.
+
+  Lemma convert_code_block_disabled cfg t kids c n body :
+    find (fun b => kind_eqb (bk b) KCode) kids = Some body ->
+    a_disabled (attrs_of (bt body)) = true ->
+    convert_code_block swidth cfg t kids c n = Ok (text swidth (into_text t), n).
+  Proof. intros Hf Hd. unfold convert_code_block. rewrite Hf, Hd. reflexivity. Qed.
+
+  (* ---------- leaves that carry literal content are emitted from their own text (C10) ---------- *)
+  Definition literal_kind (k : kind) : bool :=
+    match k with
+    | KStr | KInt | KFloat | KNumeric | KBool | KIdent | KMathIdent | KLabel | KLink | KEscape | KShorthand
+    | KMathText | KMathShorthand | KSmartQuote | KLinebreak | KMathAlignPoint | KText => true
+    | _ => false
+    end.
+
+  Lemma convert_literal_leaf cfg k s a c n :
+    literal_kind k = true ->
+    convert_expr swidth cfg (build swidth cfg (Leaf k s a)) c n = Ok (text swidth s, n + 1).
+  Proof.
+    intros Hk. unfold convert_expr, check_disabled, bind, bump. cbn [build bt attrs_of].
+    destruct (a_disabled a).
+    - cbn. unfold convert_verbatim. cbn. reflexivity.
+    - destruct k; try discriminate; reflexivity.
+  Qed.
+
+  (* every accepted output is the stripped rendering of the converter's document, and the atoms the
+     renderer emitted are atoms of that document, in document order, whatever the width *)
+  Lemma format_output_atoms cfg t out n :
+    format_source swidth cfg t = FOk out n ->
+    exists d es, convert_root swidth cfg t = Ok (d, n) /\
+                 render_events (max_width cfg) d = Some es /\
+                 out = Post.strip (flatten_events es) /\
+                 seqs d (map atom_of_event es) /\ lay MBreak d (map atom_of_event es).
+  Proof.
+    unfold format_source. destruct (erroneous t); [discriminate|].
+    destruct (convert_root swidth cfg t) as [[d m]|s]; [|discriminate].
+    unfold render. destruct (render_events (max_width cfg) d) as [es|] eqn:E; [|discriminate].
+    intros H; inversion H; subst. exists d, es. repeat split; auto.
+    - apply (render_atoms _ _ _ E).
+    - apply (render_lay _ _ _ E).
+  Qed.
 End ConvProofs.
